@@ -20,6 +20,63 @@ pub struct World {
     pub big_used: u8,
     /// number of versions on the chain that were produced by a sync that sent >= 2 versions
     pub multi_version_syncs: u32,
+    /// some sync so far met the trigger of the known finding "invalid operations rebased": an
+    /// operation that was invalid where it was made (pending here or pulled) met concurrent
+    /// operations on the same task
+    pub invalid_rebased: bool,
+    /// some commit so far contained an operation that was invalid where it stood (only the
+    /// `Messy` / `Ghost` actions make such commits)
+    pub has_invalid_ops: bool,
+}
+
+/// Trigger of the known finding (see known_findings.json, C01): replica `r` is about to sync with
+/// pending operations and unseen versions that touch a common task, and on either side one of the
+/// operations on that task was invalid where it was made (create of an existing task,
+/// update/delete of a missing one).
+pub fn invalid_rebase_trigger(w: &World, r: usize) -> bool {
+    let o = &w.obs[r];
+    let Some(upto) = (if o.base.is_nil() { Some(0) } else { w.chain.index_of(o.base).map(|i| i + 1) }) else { return false };
+    let mut t = match ops::replay_chain(w.chain.versions[..upto].iter().map(|v| v.seg.as_slice())) {
+        Ok(t) => t,
+        Err(_) => return false,
+    };
+    let base = t.clone();
+    let invalid_here = |t: &Tasks, m: &ops::MOp| match m {
+        ops::MOp::Create(u) => t.contains_key(u),
+        other => !t.contains_key(&other.uuid()),
+    };
+    // pulled side, from the base state
+    let mut pulled: std::collections::BTreeMap<uuid::Uuid, bool> = Default::default();
+    for v in &w.chain.versions[upto..] {
+        let Ok(ms) = ops::parse_version_cached(&v.seg) else { return false };
+        for m in ms.iter() {
+            let e = pulled.entry(m.uuid()).or_insert(false);
+            *e |= invalid_here(&t, m);
+            ops::apply(&mut t, m);
+        }
+    }
+    // pending side, from the base state
+    let mut t = base;
+    let mut pending: std::collections::BTreeMap<uuid::Uuid, bool> = Default::default();
+    for op in &o.unsynced {
+        if let Some(m) = ops::to_sync(op) {
+            let e = pending.entry(m.uuid()).or_insert(false);
+            *e |= invalid_here(&t, &m);
+            ops::apply(&mut t, &m);
+        }
+    }
+    pending.iter().any(|(u, inv)| pulled.get(u).is_some_and(|pinv| *inv || *pinv))
+}
+
+/// Class prefix of every oracle failure in a world in which the trigger above has fired.
+pub const KNOWN_INVALID_REBASE: &str = "invalid-operation-rebased";
+
+pub fn tag_known(w: &World, e: String) -> String {
+    if w.invalid_rebased && !e.starts_with(KNOWN_INVALID_REBASE) {
+        format!("{KNOWN_INVALID_REBASE}: a sync in this history rebased operations of which one was invalid where it was made (redundant create / update or delete of a missing task) over concurrent operations on the same task; consequence: {e}")
+    } else {
+        e
+    }
 }
 
 impl World {
@@ -32,6 +89,8 @@ impl World {
             chain: ChainState::default(),
             big_used: 0,
             multi_version_syncs: 0,
+            invalid_rebased: false,
+            has_invalid_ops: false,
         }
     }
 }
@@ -67,6 +126,11 @@ pub enum Act {
     CreateSet { r: usize, t: u8 },
     /// one commit of several operations: delete the task, create it again and set p=c@2
     Recreate { r: usize, t: u8 },
+    /// one commit containing an operation that is invalid where it stands (the API accepts and
+    /// records it, every replica must ignore it alike): create T, T.p=m@3, create T AGAIN, T.q=m@3
+    Messy { r: usize, t: u8 },
+    /// one commit with an update of a task that does not exist on this replica: T.p=g@3
+    Ghost { r: usize, t: u8 },
     Sync { r: usize, urg: Urg, avoid: bool },
 }
 
@@ -80,6 +144,8 @@ impl Act {
             | Act::UndoPoint { r }
             | Act::CreateSet { r, .. }
             | Act::Recreate { r, .. }
+            | Act::Messy { r, .. }
+            | Act::Ghost { r, .. }
             | Act::Sync { r, .. } => *r,
         }
     }
@@ -128,7 +194,7 @@ pub fn local_op(tasks: &Tasks, a: &Act) -> Option<Operation> {
             })
         }
         Act::UndoPoint { .. } => Some(Operation::UndoPoint),
-        Act::CreateSet { .. } | Act::Recreate { .. } => None,
+        Act::CreateSet { .. } | Act::Recreate { .. } | Act::Messy { .. } | Act::Ghost { .. } => None,
         Act::Sync { .. } => None,
     }
 }
@@ -155,6 +221,24 @@ pub fn local_ops(tasks: &Tasks, a: &Act) -> Vec<Operation> {
                 Operation::Update { uuid: u, property: "p".into(), old_value: None, value: Some("c".into()), timestamp: ts(2) },
             ]
         }
+        Act::Messy { t, .. } => {
+            let u = tid(*t);
+            let old = tasks.get(&u);
+            let upd = |p: &str, old_value: Option<String>| Operation::Update { uuid: u, property: p.into(), old_value, value: Some("m".into()), timestamp: ts(3) };
+            vec![
+                Operation::Create { uuid: u },
+                upd("p", old.and_then(|o| o.get("p")).cloned()),
+                Operation::Create { uuid: u },
+                upd("q", old.and_then(|o| o.get("q")).cloned()),
+            ]
+        }
+        Act::Ghost { t, .. } => {
+            let u = tid(*t);
+            if tasks.contains_key(&u) {
+                return vec![];
+            }
+            vec![Operation::Update { uuid: u, property: "p".into(), old_value: None, value: Some("g".into()), timestamp: ts(3) }]
+        }
         other => local_op(tasks, other).into_iter().collect(),
     }
 }
@@ -172,6 +256,9 @@ pub struct SyncOutcome {
 
 /// Run one real `Replica::sync` of replica `r` against the chain of `w`.
 pub fn do_sync(w: &mut World, r: usize, urg: Urg, avoid: bool, sctl: Option<Arc<ServerCtl>>, ctl: Option<Arc<Ctl>>) -> SyncOutcome {
+    if w.has_invalid_ops && !w.invalid_rebased && invalid_rebase_trigger(w, r) {
+        w.invalid_rebased = true;
+    }
     let st = Arc::new(Mutex::new(std::mem::take(&mut w.chain)));
     let n_before = st.lock().unwrap().versions.len();
     let s_before = st.lock().unwrap().snapshots.len();
@@ -220,6 +307,9 @@ pub fn do_local(w: &mut World, a: &Act) -> Result<bool, String> {
     if ops_.is_empty() {
         return Ok(false);
     }
+    if matches!(a, Act::Messy { .. } | Act::Ghost { .. }) {
+        w.has_invalid_ops = true;
+    }
     if matches!(a, Act::Big { .. }) {
         w.big_used += 1;
     }
@@ -256,7 +346,7 @@ pub fn canon(w: &World) -> u128 {
         // snapshot bytes depend on hash-map iteration order; canonicalise by decoded content
         .map(|(v, b)| (v.as_u128(), match decode_snapshot(b) { Ok(t) => crate::util::h64(&t), Err(_) => crate::util::h64(b.as_ref()) }))
         .collect();
-    crate::util::h128(&(reps, chain, snaps, w.big_used))
+    crate::util::h128(&(reps, chain, snaps, w.big_used, w.invalid_rebased))
 }
 
 /// The replica invariant: the chain replayed up to the replica's base version, then the
@@ -291,6 +381,13 @@ pub fn replica_invariant(chain: &ChainState, o: &Obs, who: usize) -> Result<(), 
 /// the chain. Returns the converged tasks.
 pub fn quiesce(w: &World) -> Result<(Tasks, World), String> {
     let mut w = w.clone();
+    match quiesce_in_place(&mut w) {
+        Ok(t) => Ok((t, w)),
+        Err(e) => Err(tag_known(&w, e)),
+    }
+}
+
+fn quiesce_in_place(w: &mut World) -> Result<Tasks, String> {
     let r = w.reps.len();
     let mut rounds = 0;
     loop {
@@ -305,7 +402,7 @@ pub fn quiesce(w: &World) -> Result<(Tasks, World), String> {
                 continue;
             }
             any = true;
-            let out = do_sync(&mut w, i, Urg::None, false, None, None);
+            let out = do_sync(w, i, Urg::None, false, None, None);
             if let Err(e) = out.result {
                 return Err(format!("sync-failed: quiescing sync of replica {i} failed: {e}"));
             }
@@ -317,7 +414,7 @@ pub fn quiesce(w: &World) -> Result<(Tasks, World), String> {
             return Err("no-quiescence: the replicas do not reach a state in which every one is at the latest version with nothing left to send".into());
         }
     }
-    let obs = world_obs(&w);
+    let obs = world_obs(w);
     for (i, o) in obs.iter().enumerate() {
         if !o.unsynced.is_empty() {
             return Err(format!("pending-after-sync: replica {i} still has unsynchronized operations after a successful sync"));
@@ -347,7 +444,7 @@ pub fn quiesce(w: &World) -> Result<(Tasks, World), String> {
             crate::world::replicas::tasks_str(&replay)
         ));
     }
-    Ok((replay, w))
+    Ok(replay)
 }
 
 /// Decode a snapshot independently of the crate: zlib + JSON object of objects of strings.
@@ -385,6 +482,8 @@ pub fn act_str(a: &Act) -> String {
         Act::UndoPoint { r } => format!("R{r}:undo-point"),
         Act::CreateSet { r, t } => format!("R{r}:commit[create T{t}; T{t}.p=a@1]"),
         Act::Recreate { r, t } => format!("R{r}:commit[delete T{t}; create T{t}; T{t}.p=c@2]"),
+        Act::Messy { r, t } => format!("R{r}:commit[create T{t}; T{t}.p=m@3; create T{t}; T{t}.q=m@3]"),
+        Act::Ghost { r, t } => format!("R{r}:commit[T{t}.p=g@3 (T{t} does not exist here)]"),
         Act::Sync { r, urg, avoid } => format!("R{r}:sync(urgency={urg:?},avoid={avoid})"),
     }
 }
